@@ -114,7 +114,7 @@ def mutants(args):
             for prop in plist:
                 t0 = time.time()
                 proc = subprocess.run([os.path.join(M.VERIF, "check"), prop, "quick"], capture_output=True, text=True, cwd=M.VERIF,
-                                      env=dict(os.environ, VERIF_REPO=M.REPO))
+                                      env=dict(os.environ, VERIF_REPO=M.REPO, VERIF_SHARD_TIMEOUT="900"))
                 viol = [l for l in proc.stdout.splitlines() if l.startswith("VIOLATION")]
                 verdict = "caught" if proc.returncode == 1 and viol else ("silent" if proc.returncode == 0 else "harness-error(%d)" % proc.returncode)
                 expected = "silent" if silent else "caught"
